@@ -191,22 +191,25 @@ fn in_child(limit_s: u64, f: impl FnOnce() -> i32) -> Option<i32> {
             libc::_exit(code);
         }
         let t0 = Instant::now();
-        loop {
+        crate::ctx::WD_EXTERNAL_WAIT.fetch_add(1, std::sync::atomic::Ordering::Relaxed);
+        let res = loop {
             let mut st: libc::c_int = 0;
             let r = libc::waitpid(pid, &mut st, libc::WNOHANG);
             if r == pid {
-                return if libc::WIFEXITED(st) { Some(libc::WEXITSTATUS(st)) } else { None };
+                break if libc::WIFEXITED(st) { Some(libc::WEXITSTATUS(st)) } else { None };
             }
             if r < 0 {
-                return None;
+                break None;
             }
             if t0.elapsed().as_secs() >= limit_s {
                 libc::kill(pid, libc::SIGKILL);
                 libc::waitpid(pid, &mut st, 0);
-                return None;
+                break None;
             }
             std::thread::sleep(std::time::Duration::from_millis(5));
-        }
+        };
+        crate::ctx::WD_EXTERNAL_WAIT.fetch_sub(1, std::sync::atomic::Ordering::Relaxed);
+        res
     }
 }
 
